@@ -33,7 +33,7 @@ def make_base(seed, tier):
     knobs = gen.Knobs(items=r.choice([2, 3]), members=r.choice([4, 6]), ns_depth=r.choice([0, 1, 2]),
                       inst_len=4 if tier == 'quick' else 5, tparams=2)
     g = gen.WildGen(seed, knobs, multiline_defaults=False, param_use=0.6, this_use=0.1, class_template_p=0.8, member_template_p=0.3,
-                    typedefs=False, includes=False, fwd=False)
+                    typedefs=False, includes=False, fwd=False, clone_templates=0.3)
     return g.module()
 
 
